@@ -15,7 +15,195 @@ def line_of(d):
     b = lambda x: "1" if x else "0"
     return " ".join([d["tool"], C.hexs(d["name"]), hl(d["inputs"]), hl(d["outputs"]), b(d["ami"]), b(d["amo"]), b(d["aood"]),
                      hl(d["args"]), hl([k for k, _ in d["env"]]), hl([v for _, v in d["env"]]), hl(d["deps"]),
-                     str(d["style"]), b(d["inh"]), b(d["csi"]), C.hexs(d["sig"])])
+                     str(d["style"]), b(d["inh"]), b(d["csi"]), C.hexs(d["sig"])] +
+                    ["%s=%s" % (k, enc_kv(k, v)) for k, v in d.get("tail", [])])
+
+
+# ----------------------------------------------------------------------------------------------------------------
+# The other tools (clang, mkdir, archive, shared-library, swift-compiler, symlink, stale-file-removal) and node rules.
+# A definition is dict(tool, name, inputs, outputs, ami, amo, aood, x={attribute: value}); value types by attribute:
+KEYTYPE = {"args": "l", "deps": "s", "executable": "s", "compiler-style": "s", "other-args": "l", "module-name": "s",
+           "module-aliases": "l", "module-output-path": "s", "sources": "l", "objects": "l", "import-paths": "l",
+           "temps-path": "s", "is-library": "b", "enable-whole-module-optimization": "b", "num-threads": "s",
+           "contents": "s", "link-output-path": "s", "expectedOutputs": "l", "roots": "l", "type": "i", "typeattr": "i",
+           "producers": "l", "is-mutated": "b", "is-command-timestamp": "b", "working-directory": "s", "control-enabled": "b",
+           "repair-via-ownership-analysis": "b"}
+# python oracle, independent restatement: the attributes that each tool's getSignature() hashes (besides the
+# ExternalCommand part name/inputs/outputs/three flags) ...
+HASHED_KEYS = {"clang": ["args"], "mkdir": [], "archive": [], "shared-library": [],
+               "swift-compiler": ["executable", "module-name", "module-aliases", "module-output-path", "sources", "objects",
+                                  "import-paths", "temps-path", "other-args", "is-library"],
+               "symlink": ["contents"], "stale-file-removal": [], "node": ["type", "producers"]}
+# ... and the attributes that are NOT hashed although they change what the command does (findings; see notes/C09.md)
+BEHAVIOURAL_UNHASHED = {"shell": ["working-directory", "control-enabled"], "clang": ["deps"],
+                        "shared-library": ["executable", "other-args", "compiler-style"],
+                        "swift-compiler": ["enable-whole-module-optimization", "num-threads"]}
+# Set to True once known_findings.json carries the entries proposed in notes/C09.md ("Follow-up: proofs added"):
+# the unhashed-attribute pairs and histories then count as oracle failures (family "unsigned-attribute").
+STRICT_UNSIGNED_ATTRIBUTES = False
+EXT_TOOLS = ("clang", "mkdir", "archive", "shared-library", "swift-compiler")     # ExternalCommand subclasses
+
+
+def enc_kv(k, v):
+    t = KEYTYPE[k]
+    if t == "s":
+        return C.hexs(v)
+    if t == "l":
+        return hl(v)
+    if t == "b":
+        return "1" if v else "0"
+    return str(v)
+
+
+def oline_of(d):
+    b = lambda x: "1" if x else "0"
+    return " ".join([d["tool"], C.hexs(d["name"]), hl(d["inputs"]), hl(d["outputs"]), b(d["ami"]), b(d["amo"]), b(d["aood"])] +
+                    ["%s=%s" % (k, enc_kv(k, v)) for k, v in d["x"].items()])
+
+
+def any_line(d):
+    return oline_of(d) if "x" in d else line_of(d)
+
+
+def freeze(v):
+    return tuple(v) if isinstance(v, list) else v
+
+
+def is_virtual(n):
+    return len(n) >= 2 and n[:1] == b"<" and n[-1:] == b">"
+
+
+def node_type(name, x):
+    """final BuildNode::NodeType ordinal: createNode() by the shape of the name, then the attributes in file order"""
+    t = 1 if name.endswith(b"/") else 3 if is_virtual(name) else 0
+    if x.get("typeattr"):
+        t = x["typeattr"] - 1
+    if x.get("is-command-timestamp"):
+        t = 3
+    return t
+
+
+def loadable(d):
+    """what the loader's configure* functions insist on"""
+    t = d["tool"]
+    if not d["name"]:
+        return False
+    if t in ("archive", "shared-library"):
+        return sum(1 for n in d["inputs"] if not is_virtual(n)) >= 1 and sum(1 for n in d["outputs"] if not is_virtual(n)) == 1
+    if t == "symlink":
+        return len(d["outputs"]) == 1
+    if t == "node":
+        p = d["x"]["producers"]
+        return len(p) >= 1 and len(set(p)) == len(p) and all(p)
+    return True
+
+
+def ohashed(d):
+    t, x = d["tool"], d["x"]
+    if t == "symlink":
+        return (t, tuple(d["outputs"]), x["contents"], tuple(d["inputs"]))
+    if t == "stale-file-removal":
+        return (t, d["name"])
+    if t == "node":
+        return (t, x["type"], tuple(x["producers"]))
+    # shared-library: the scalar configureAttribute overload accepts the three ExternalCommand flags and IGNORES them
+    # (it does not delegate to ExternalCommand), so the members keep their defaults whatever the build file says
+    flags = (False, False, False) if t == "shared-library" else (d["ami"], d["amo"], d["aood"])
+    return (t, d["name"], tuple(d["inputs"]), tuple(d["outputs"])) + flags + tuple(freeze(x.get(k)) for k in HASHED_KEYS[t])
+
+
+def behavioural(d):
+    """the unhashed attributes that change what the command does"""
+    src = dict(d.get("tail", [])) if "x" not in d else d["x"]
+    return tuple((k, freeze(src.get(k))) for k in BEHAVIOURAL_UNHASHED.get(d["tool"], []))
+
+
+def ovariants(d):
+    """every loadable definition differing from d in exactly one attribute / one boundary move"""
+    out = []
+    t, x = d["tool"], d["x"]
+
+    def put(kind, **kw):
+        n = dict(d)
+        nx = dict(x)
+        for k, v in kw.items():
+            if k in ("name", "inputs", "outputs", "ami", "amo", "aood"):
+                n[k] = v
+            else:
+                nx[k.replace("_", "-")] = v
+        if t == "node":
+            nx["type"] = node_type(n["name"], nx)
+        n["x"] = nx
+        if loadable(n):
+            out.append((kind, n))
+    put("name", name=d["name"] + b"x")
+    if len(d["name"]) > 1:
+        put("name", name=d["name"][:-1])
+    if t not in ("stale-file-removal", "node"):
+        for attr in ("inputs", "outputs"):
+            for kind, nl in list_variants(attr, d[attr], b"n"):
+                if all(nl):
+                    put(kind, **{attr: nl})
+        if d["inputs"]:
+            put("move:inputs>outputs", inputs=d["inputs"][:-1], outputs=[d["inputs"][-1]] + d["outputs"])
+        if d["outputs"]:
+            put("move:outputs>inputs", inputs=d["inputs"] + [d["outputs"][0]], outputs=d["outputs"][1:])
+    if t in EXT_TOOLS:
+        for f in ("ami", "amo", "aood"):
+            put(("ignored-flag:" if t == "shared-library" else "flag:") + f, **{f: not d[f]})
+    for k, v in x.items():
+        if k in ("type", "typeattr"):
+            continue
+        ty = KEYTYPE[k]
+        tag = k if k in HASHED_KEYS[t] else "unhashed:" + k
+        if ty == "b":
+            put(tag, **{k: not v})
+        elif ty == "s":
+            if k == "num-threads":
+                put(tag, **{k: b"4" if v != b"4" else b"2"})
+            elif k == "compiler-style":
+                for cs in (b"cl", b"clang", b"swiftc"):
+                    if cs != v:
+                        put(tag, **{k: cs})
+            else:
+                put(tag, **{k: v + b"x"})
+                if v:
+                    put(tag, **{k: v[:-1]})
+        elif ty == "l":
+            for kind, nl in list_variants(tag, v, b"n"):
+                if k != "producers" or all(nl):
+                    put(kind, **{k: nl})
+    # moves across the boundaries of members that are adjacent in the hash chain
+    if t == "clang" and d["outputs"]:
+        put("move:outputs>args", outputs=d["outputs"][:-1], args=[d["outputs"][-1]] + x["args"])
+    if t == "swift-compiler":
+        chain = ["module-aliases", "sources", "objects", "import-paths", "other-args"]
+        for a, b in zip(chain, chain[1:]):
+            if x[a]:
+                put("move:%s>%s" % (a, b), **{a: x[a][:-1], b: [x[a][-1]] + x[b]})
+            if x[b]:
+                put("move:%s>%s" % (b, a), **{a: x[a] + [x[b][0]], b: x[b][1:]})
+        for lst, sc in (("module-aliases", "module-output-path"), ("import-paths", "temps-path")):
+            if x[lst] and not x[sc]:                 # the last element becomes the scalar hashed right after the list
+                put("move:%s>%s" % (lst, sc), **{lst: x[lst][:-1], sc: x[lst][-1]})
+        if x["executable"]:
+            put("move:executable>module-name", executable=x["executable"][:-1], module_name=x["executable"][-1:] + x["module-name"])
+        if d["outputs"]:
+            put("move:outputs>executable", outputs=d["outputs"][:-1], executable=d["outputs"][-1])
+    if t == "symlink":
+        if d["inputs"] and not x["contents"]:
+            put("move:inputs>contents", contents=d["inputs"][0], inputs=d["inputs"][1:])
+        if x["contents"]:
+            put("move:contents>inputs", contents=b"", inputs=[x["contents"]] + d["inputs"])
+            put("move:contents>output", contents=x["contents"][1:], outputs=[d["outputs"][0] + x["contents"][:1]])
+    if t == "node":
+        for ta in range(5):
+            if ta != x["typeattr"]:
+                put("type", typeattr=ta)
+        p = x["producers"]
+        if len(p) >= 2:
+            put("producers:merge2", producers=[p[0] + p[1]] + p[2:])
+    return out
 
 
 def relevant(d):
@@ -34,8 +222,10 @@ def show(d):
     for k, v in d.items():
         if isinstance(v, bytes):
             r[k] = v.decode("latin-1")
+        elif isinstance(v, dict):
+            r[k] = show(v)
         elif isinstance(v, list):
-            r[k] = [x.decode("latin-1") if isinstance(x, bytes) else [y.decode("latin-1") for y in x] for x in v]
+            r[k] = [x.decode("latin-1") if isinstance(x, bytes) else [y.decode("latin-1") if isinstance(y, bytes) else y for y in x] for x in v]
         else:
             r[k] = v
     return r
@@ -124,6 +314,9 @@ def variants(d):
                 put("move:args>deps", args=a[:-1], deps=[a[-1]] + dp)
             if dp:
                 put("move:deps>args", args=a + [dp[0]], deps=dp[1:])
+        # attributes that are NOT hashed (findings): the signature must stay the same, the pair is recorded
+        put("unhashed:working-directory", tail=[("working-directory", b"/w d")])
+        put("unhashed:control-enabled", tail=[("control-enabled", False)])
         for s in range(4):
             if s != d["style"]:
                 put("style", style=s)
@@ -152,6 +345,8 @@ def flat(d, style):
 
 
 def family(kind, b, v):
+    if "x" in b:
+        return "list-boundary" if kind.startswith("move:") else "global" if kind == "any" else kind.split(":")[0]
     if kind == "any":     # a colliding pair met outside the single-attribute enumeration: classify by what separates them
         if flat(b, False) == flat(v, False):
             return "list-boundary"
@@ -176,6 +371,16 @@ class Check(PropertyCheck):
                 "LLBuild.Signature.C09_prefix_external_not_injective",
                 "LLBuild.Signature.C09_prefix_collision_inputs_outputs", "LLBuild.Signature.C09_prefix_collision_args_env",
                 "LLBuild.Signature.C09_prefix_collision_deps_style",
+                # every other class with a regenerated recipe (Props/C09Classes.lean)
+                "LLBuild.Signature.C09_sig_iff_shell", "LLBuild.Signature.C09_sig_iff_external",
+                "LLBuild.Signature.C09_sig_iff_command", "LLBuild.Signature.C09_sig_iff_clang",
+                "LLBuild.Signature.C09_sig_iff_swift", "LLBuild.Signature.C09_sig_iff_symlink",
+                "LLBuild.Signature.C09_symlink_without_output_undefined", "LLBuild.Signature.C09_sig_iff_buildNode",
+                "LLBuild.Signature.C09_sig_iff_all_classes", "LLBuild.Signature.C09_sig_defined_all_classes",
+                "LLBuild.Signature.C09_sig_pure_all_classes", "LLBuild.Signature.C09_tool_classes",
+                "LLBuild.Signature.C09_sig_iff_every_tool", "LLBuild.Signature.C09_unsigned_attributes",
+                "LLBuild.Signature.C09_signed_attributes_configurable",
+                "LLBuild.Signature.C09_lists_delimited", "LLBuild.Signature.C09_prefix_lists_not_delimited",
                 # history half, on the abstract engine (tie to BuildEngine.cpp: the engine checks C01/C02)
                 "LLBuild.Engine.C02_null_build_after_build", "LLBuild.Engine.C09_changed_definition_reruns",
                 "LLBuild.Engine.C09_changed_definition_signature_differs", "LLBuild.Engine.C09_unchanged_definition_needs_other_reason"]
@@ -185,9 +390,12 @@ class Check(PropertyCheck):
         "injectivity is proved for the pre-hash term; collisions of llvm::hash_combine's 64-bit mixing are out of scope (a collision met by the correspondence/oracle is still reported)",
         "list lengths below 2^64 (terms carry unbounded naturals)",
         "the null-build / re-run-iff half of C09 rests on the engine model (C02) and is not part of this check",
-        "CommandDef -> field values: the loader's configure* functions store attribute values unchanged (exercised, not proved: every generated definition goes through the real BuildFile loader)",
+        "CommandDef -> field values: the loader's configure* functions store attribute values unchanged (exercised, not proved: every generated definition of every tool goes through the real BuildFile loader)",
+        "symlink commands have exactly one declared output (what configureOutputs accepts; without an `outputs:` key the real getSignature() reads outputs[0] out of bounds - model: no term)",
+        "attributes that are not hashed although they change what the command does (shell working-directory/control-enabled, clang deps, shared-library executable/other-args/compiler-style, swift-compiler enable-whole-module-optimization/num-threads) are findings recorded in coverage.histories / unsigned_attribute_pairs; they become oracle failures when STRICT_UNSIGNED_ATTRIBUTES is set",
     ]
-    trusted_base = ["extractor x_signature (clang-14 JSON AST -> recipe; overload resolved through the callee decl id; Hashing.h text shapes)",
+    trusted_base = ["extractor x_signature (clang-14 JSON AST -> recipe; overload resolved through the callee decl id; Hashing.h text shapes; "
+                    "tool -> command class -> nearest getSignature override and the attribute names of the configureAttribute overloads are read at TEXT level)",
                     "hand model of llvm::hash_value/hash_combine/hash_short/hash_state (bit-exact correspondence on every run)",
                     "harness vc09 (real BuildSystem + BuildFile loader; getSignature() observed in commandPreparing)",
                     "python oracle `relevant` (independent restatement of the signature-relevant part)"]
@@ -225,6 +433,171 @@ class Check(PropertyCheck):
                 d["sig"] = rng.choice([b"s", b"sig 2", b"a"]) if rng.chance(1, 6) else b""
             out.append(d)
         return out
+
+    def obases(self, ctx, n):
+        """base definitions of the other tools and of node rules (all loadable)"""
+        rng = ctx.rng
+        words = [b"a", b"b", b"ab", b"ba", b"a b", b"", b"x=1", b"k", b"v", b"-c", b"/p/q", b"<t>", b"d/", b"a,b", b"\"q\"", b"s"]
+        nodes = [w for w in words if w]
+        plain = [w for w in nodes if not is_virtual(w)]
+
+        def lst(pool, mx, mn=0):
+            return [rng.choice(pool) for _ in range(mn + rng.below(mx + 1 - mn))]
+
+        def ext(tool, i, **x):
+            return dict(tool=tool, name=b"%s%d" % (tool[:2].encode(), i), inputs=lst(nodes, 3), outputs=lst(nodes, 3),
+                        ami=rng.chance(1, 4), amo=rng.chance(1, 4), aood=rng.chance(1, 4), x=x)
+        out = []
+        # hand-written seeds: one of each tool
+        out.append(dict(tool="clang", name=b"CC", inputs=[b"a.c", b"b.h"], outputs=[b"a.o"], ami=False, amo=False, aood=False,
+                        x={"args": [b"cc", b"-c", b"a.c"], "deps": b"a.d"}))
+        out.append(dict(tool="mkdir", name=b"MK", inputs=[], outputs=[b"dir"], ami=False, amo=False, aood=False, x={}))
+        out.append(dict(tool="archive", name=b"AR", inputs=[b"a.o", b"b.o"], outputs=[b"lib.a"], ami=False, amo=False, aood=False, x={}))
+        out.append(dict(tool="shared-library", name=b"SO", inputs=[b"a.o"], outputs=[b"lib.so"], ami=False, amo=False, aood=False,
+                        x={"executable": b"cc", "compiler-style": b"clang", "other-args": [b"-O"]}))
+        out.append(dict(tool="swift-compiler", name=b"SW", inputs=[b"a.swift"], outputs=[b"a.o"], ami=False, amo=False, aood=False,
+                        x={"executable": b"swiftc", "module-name": b"M", "module-aliases": [b"A=B"], "module-output-path": b"",
+                           "sources": [b"a.swift", b"b.swift"], "objects": [b"a.o", b"b.o"], "import-paths": [b"/i"], "temps-path": b"tmp",
+                           "other-args": [b"-O"], "is-library": False, "enable-whole-module-optimization": False, "num-threads": b"0"}))
+        out.append(dict(tool="symlink", name=b"LN", inputs=[b"a"], outputs=[b"lnk"], ami=False, amo=False, aood=False,
+                        x={"contents": b"target", "link-output-path": b""}))
+        out.append(dict(tool="stale-file-removal", name=b"SFR", inputs=[], outputs=[], ami=False, amo=False, aood=False,
+                        x={"expectedOutputs": [b"/a", b"/b"], "roots": [b"/"]}))
+        for nm in (b"out", b"<v>", b"dir/"):
+            x = {"typeattr": 0, "producers": [b"P1", b"P2"], "is-mutated": False, "is-command-timestamp": False}
+            x["type"] = node_type(nm, x)
+            out.append(dict(tool="node", name=nm, inputs=[], outputs=[], ami=False, amo=False, aood=False, x=x))
+        tools = ["clang", "clang", "swift-compiler", "swift-compiler", "symlink", "mkdir", "archive", "shared-library", "stale-file-removal", "node", "node"]
+        for i in range(n):
+            t = tools[i % len(tools)]
+            if t == "clang":
+                d = ext(t, i, args=lst(words, 4), deps=rng.choice([b"", b"d.d", b"a b.d"]))
+            elif t == "mkdir":
+                d = ext(t, i)
+                d["outputs"] = lst(plain, 2, 1)
+            elif t in ("archive", "shared-library"):
+                d = ext(t, i)
+                d["inputs"] = lst(plain, 3, 1) + ([b"<t>"] if rng.chance(1, 4) else [])
+                d["outputs"] = [rng.choice(plain)] + ([b"<t>"] if rng.chance(1, 4) else [])
+                if t == "shared-library":
+                    d["ami"] = d["amo"] = d["aood"] = False       # its scalar overload ignores the flags (see notes)
+                    d["x"] = {"executable": rng.choice([b"cc", b"", b"/usr/bin/c c"]), "compiler-style": rng.choice([b"cl", b"clang", b"swiftc"]),
+                              "other-args": lst(words, 3)}
+            elif t == "swift-compiler":
+                d = ext(t, i, **{"executable": rng.choice([b"swiftc", b"", b"/x/swiftc", b"s c"]), "module-name": rng.choice(words),
+                                 "module-aliases": lst(words, 2), "module-output-path": rng.choice([b"", b"M.swiftmodule", b"a"]),
+                                 "sources": lst(words, 3), "objects": lst(words, 3), "import-paths": lst(words, 2),
+                                 "temps-path": rng.choice([b"", b"tmp", b"a"]), "other-args": lst(words, 3),
+                                 "is-library": rng.chance(1, 2), "enable-whole-module-optimization": rng.chance(1, 2),
+                                 "num-threads": rng.choice([b"0", b"4"])})
+            elif t == "symlink":
+                d = dict(tool=t, name=b"ln%d" % i, inputs=lst(nodes, 3), outputs=[rng.choice(nodes)], ami=False, amo=False, aood=False,
+                         x={"contents": rng.choice(words), "link-output-path": rng.choice([b"", b"", b"other"])})
+            elif t == "stale-file-removal":
+                d = dict(tool=t, name=b"sfr%d" % i, inputs=[], outputs=[], ami=False, amo=False, aood=False,
+                         x={"expectedOutputs": lst(words, 3), "roots": lst([b"/", b"/a", b"r"], 2)})
+            else:
+                nm = rng.choice([b"out", b"<v>", b"dir/", b"a b", b"<x", b"n%d" % i])
+                prods = []
+                for _ in range(1 + rng.below(3)):
+                    c = rng.choice([b"P", b"Q", b"PQ", b"p q", b"R%d" % i])
+                    if c not in prods:
+                        prods.append(c)
+                x = {"typeattr": rng.below(5), "producers": prods, "is-mutated": rng.chance(1, 4), "is-command-timestamp": rng.chance(1, 6)}
+                x["type"] = node_type(nm, x)
+                d = dict(tool=t, name=nm, inputs=[], outputs=[], ami=False, amo=False, aood=False, x=x)
+            if loadable(d):
+                out.append(d)
+        return out
+
+    # ------------------------------------------------------------------ two-build histories through bin/llbuild
+    def histories(self, ctx, res):
+        """change ONE attribute between two builds of the real tool; the command must run again.  Controls: a hashed
+        attribute (must re-run) and no change (must not run).  Attributes that are not hashed are findings."""
+        import shutil, subprocess
+        exe = os.path.join(C.BUILD, "plain", "bin", "llbuild")
+        if not os.path.exists(exe):
+            res.mismatches.append({"stream": "c09history", "input": "bin/llbuild not built", "impl": exe})
+            return
+        root = os.path.join(C.BUILD, "scratch", "c09-hist-%d" % os.getpid())
+        shutil.rmtree(root, ignore_errors=True)
+        fake = ("#!/bin/sh\n# stands in for cc / swiftc: records its command line in the output, writes the dependency files\n"
+                "D=\"$(dirname \"$0\")\"\nif [ \"$1\" = \"--version\" ]; then echo fake 1.0; exit 0; fi\n"
+                "echo \"$@\" > \"$D/out\"\nprintf 'out: %s/src\\n' \"$D\" > \"$D/src.d\"\nmkdir -p \"$D/tmp\"\n"
+                "printf 'out: %s/src\\n' \"$D\" > \"$D/tmp/M.d\"\necho ran >> \"$D/log\"\n")
+
+        def body(tool, d, attrs):
+            y = "client:\n  name: basic\ntargets:\n  \"\": [\"%s/out\"]\ndefault: \"\"\ncommands:\n  C:\n    tool: %s\n    outputs: [\"%s/out\"]\n" % (d, tool, d)
+            for k, v in attrs:
+                y += "    %s: %s\n" % (k, v.replace("$D", d))
+            return y
+        shell = [("args", '["/bin/sh", "-c", "(pwd; echo fd=$LLBUILD_CONTROL_FD) > $D/out; echo ran >> $D/log"]')]
+        clang = [("args", '["/bin/sh", "-c", "echo obj > $D/out; echo ran >> $D/log"]')]
+        shlib = [("inputs", '["$D/src"]')]
+        swift = [("inputs", '["$D/src"]'), ("executable", '"$D/fake"'), ("module-name", '"M"'), ("sources", '["$D/src"]'),
+                 ("objects", '["$D/out"]'), ("temps-path", '"$D/tmp"')]
+        cases = [  # (tool, attribute, hashed?, common attributes, first value, second value)
+            ("shell", "args (control: hashed)", True, [], shell[0][1], shell[0][1].replace("echo ran", "echo  ran")),
+            ("shell", "(control: nothing changed)", None, shell, None, None),
+            ("shell", "working-directory", False, shell, '"$D/w1"', '"$D/w2"'),
+            ("shell", "control-enabled", False, shell, "true", "false"),
+            ("clang", "deps", False, clang, '"$D/d1.d"', '"$D/d2.d"'),
+            ("shared-library", "other-args", False, shlib + [("executable", '"$D/fake"'), ("compiler-style", '"clang"')], '["-O1"]', '["-O2"]'),
+            ("shared-library", "compiler-style", False, shlib + [("executable", '"$D/fake"'), ("other-args", '["-O1"]')], '"clang"', '"swiftc"'),
+            ("shared-library", "executable", False, shlib + [("compiler-style", '"clang"')], '"$D/fake"', '"$D/fake2"'),
+            ("swift-compiler", "enable-whole-module-optimization", False, swift, "false", "true"),
+            ("swift-compiler", "num-threads", False, swift + [("enable-whole-module-optimization", "true")], "0", "4"),
+            ("swift-compiler", "other-args (control: hashed)", True, swift, '["-O"]', '["-Onone"]'),
+            ("symlink", "link-output-path", False, [("contents", '"target"')], '"$D/l1"', '"$D/l2"'),
+            ("symlink", "contents (control: hashed)", True, [], '"t1"', '"t2"'),
+        ]
+        rows = []
+        for i, (tool, attr, hashed, common, v1, v2) in enumerate(cases):
+            d = os.path.join(root, "h%d" % i)
+            os.makedirs(os.path.join(d, "w1"))
+            os.makedirs(os.path.join(d, "w2"))
+            for f in ("fake", "fake2"):
+                with open(os.path.join(d, f), "w") as fh:
+                    fh.write(fake)
+                os.chmod(os.path.join(d, f), 0o755)
+            for f in ("src", "d1.d", "d2.d"):
+                open(os.path.join(d, f), "w").write("out: %s/src\n" % d if f.endswith(".d") else "x\n")
+            key = attr.split(" ")[0]
+            started = []
+
+            def build(value):
+                attrs = list(common) + ([(key, value)] if value is not None else [])
+                open(os.path.join(d, "build.llbuild"), "w").write(body(tool, d, attrs))
+                p = subprocess.run([exe, "buildsystem", "build", "--serial", "-C", d], stdout=subprocess.PIPE, stderr=subprocess.STDOUT, timeout=60)
+                txt = p.stdout.decode("utf-8", "replace")
+                # a started command prints its description line; `log` counts the runs of the tools that spawn a process
+                started.append(len([l for l in txt.split("\n") if l.strip()]))
+                return p.returncode, txt
+            rc1, t1 = build(v1)
+            rc0, t0 = build(v1)               # null build in between: nothing may run
+            rc2, t2 = build(v2)
+            ran_null, ran_again = bool(t0.strip()), bool(t2.strip())
+            row = {"tool": tool, "attribute": attr, "hashed": hashed, "first_build_exit": rc1, "null_build_ran": ran_null,
+                   "reran_after_change": ran_again, "dir": d}
+            rows.append(row)
+            res.evaluations += 3
+            if rc1 != 0 or ran_null:
+                res.oracle_failures.append({"what": "history driver: first build failed or the null build ran something (%s %s): %s" % (tool, attr, (t1 + t0)[-200:]),
+                                            "kind": "history-driver", "family": "history", "tool": tool, "attribute": attr, "input": row})
+            elif hashed is True and not ran_again:
+                res.oracle_failures.append({"what": "changing the hashed attribute %s of a %s command did not re-run it" % (attr, tool),
+                                            "kind": "not-rerun", "family": "history", "tool": tool, "attribute": attr, "input": row})
+            elif hashed is None and ran_again:
+                res.oracle_failures.append({"what": "an unchanged %s command ran again" % tool,
+                                            "kind": "rerun-without-change", "family": "history", "tool": tool, "attribute": attr, "input": row})
+            elif hashed is False and not ran_again and STRICT_UNSIGNED_ATTRIBUTES:
+                res.oracle_failures.append({"what": "changing only `%s` of a %s command (it changes what the command does) did not re-run it" % (attr, tool),
+                                            "kind": "not-rerun", "family": "unsigned-attribute", "tool": tool, "attribute": "%s:%s" % (tool, attr), "input": row})
+        res.extra["histories"] = [{k: r[k] for k in ("tool", "attribute", "hashed", "reran_after_change")} for r in rows]
+        res.distribution["two_build_histories"] = len(rows)
+        res.distribution["histories_unhashed_attribute_not_rerun"] = sum(1 for r in rows if r["hashed"] is False and not r["reran_after_change"])
+        if not any(o.get("family") in ("history", "unsigned-attribute") and o.get("input", {}).get("dir", "").startswith(root) for o in res.oracle_failures):
+            shutil.rmtree(root, ignore_errors=True)
 
     def run_defs(self, ctx, res, lines, tag):
         """two harness processes (different environment and working directory) + the Lean model"""
@@ -275,7 +648,7 @@ class Check(PropertyCheck):
             return ["lake", "--dir", C.LEAN, "env", "lean", "--run", os.path.join(C.LEAN, "DriverC09.lean"), mode]
         return [C.model_exe(), mode]
 
-    def pairs(self, ctx, res, bases, tag):
+    def pairs(self, ctx, res, bases, tag, line_of=line_of, relevant=relevant, variants=variants):
         defs, index, pairs = [], {}, []
 
         def idx(d):
@@ -296,7 +669,8 @@ class Check(PropertyCheck):
         for bi, vi, kind in pairs:
             b, v = defs[bi], defs[vi]
             rb, rv = relevant(b), relevant(v)
-            kinds[kind] = kinds.get(kind, 0) + 1
+            kname = (b["tool"] + "/" + kind) if "x" in b else kind
+            kinds[kname] = kinds.get(kname, 0) + 1
             if rb != rv:
                 nontriv += 1
                 if sigs[bi] == sigs[vi]:
@@ -309,6 +683,19 @@ class Check(PropertyCheck):
                     "what": "two definitions with the same signature-relevant part (%s) have different signatures %s / %s" % (kind, sigs[bi], sigs[vi]),
                     "kind": "impure", "attribute": kind, "family": family(kind, b, v), "tool": b["tool"],
                     "input": {"base": show(b), "variant": show(v), "lines": [lines[bi], lines[vi]]}})
+            elif behavioural(b) != behavioural(v):
+                # same signature although an attribute that changes what the command does differs: a finding
+                attr = "%s:%s" % (b["tool"], kind.split(":")[1] if ":" in kind else kind)
+                un = res.extra.setdefault("unsigned_attribute_pairs", {})
+                un[attr] = un.get(attr, 0) + 1
+                f = {"what": "two %s definitions that differ only in `%s` (it changes what the command does) have the same signature %s" % (b["tool"], attr.split(":")[1], sigs[bi]),
+                     "kind": "collision", "attribute": attr, "family": "unsigned-attribute", "tool": b["tool"],
+                     "input": {"base": show(b), "variant": show(v), "lines": [lines[bi], lines[vi]]}}
+                if STRICT_UNSIGNED_ATTRIBUTES:
+                    if sum(1 for o in res.oracle_failures if o.get("attribute") == attr) < 2:
+                        res.oracle_failures.append(f)
+                else:
+                    res.extra.setdefault("unsigned_attribute_samples", {}).setdefault(attr, f["input"]["lines"])
         # all definitions of the run against each other: equal signature => equal relevant part
         by = {}
         glob = 0
@@ -388,6 +775,14 @@ class Check(PropertyCheck):
     def replay(self, ctx, res):
         f = json.load(open(ctx.replay_path)).get("failure", {})
         lines = f.get("input", {}).get("lines") or ([f["input"]["line"]] if "line" in f.get("input", {}) else [])
+        if f.get("kind") in ("not-rerun", "rerun-without-change", "history-driver"):
+            # a two-build history: run them all again; the failing one is reported whatever STRICT_UNSIGNED_ATTRIBUTES says
+            self.histories(ctx, res)
+            for h in res.extra.get("histories", []):
+                if h["tool"] == f.get("tool") and h["attribute"] in str(f.get("attribute")) and h["hashed"] is False and not h["reran_after_change"] \
+                        and not any(o.get("tool") == h["tool"] and h["attribute"] in str(o.get("attribute")) for o in res.oracle_failures):
+                    res.oracle_failures.append(dict(f, what="(replayed) " + f.get("what", "")))
+            return
         if not lines:
             C.log("replay file carries no definition lines")
             return
@@ -402,9 +797,14 @@ class Check(PropertyCheck):
         self.corpus(ctx, res)
         self.hash_stream(ctx, res)
         self.pairs(ctx, res, self.bases(ctx, 2500 if ctx.thorough else 200), "c09sig")
+        self.pairs(ctx, res, self.obases(ctx, 1500 if ctx.thorough else 150), "c09sig-tools", line_of=oline_of, relevant=ohashed, variants=ovariants)
+        self.histories(ctx, res)
         res.rule = ("every generated base definition (shell / phony tool, through the real BuildFile loader) against every definition that differs "
                     "from it in exactly one attribute, including every move of a boundary between adjacent lists and between adjacent elements; "
                     "each definition's getSignature() computed in two separate processes and by the Lean model (bit-exact). "
+                    "The same for clang / mkdir / archive / shared-library / swift-compiler / symlink / stale-file-removal commands and for node rules "
+                    "(BuildNode::getSignature observed on the output node of a producing command).  13 two-build histories through bin/llbuild "
+                    "(one attribute changed between the builds). "
                     "Non-trivial = pairs whose signature-relevant parts differ.")
         res.exhaustive = False
 
